@@ -17,6 +17,7 @@
 #include <functional>
 #include <csignal>
 #include <unistd.h>
+#include <sys/time.h>
 
 namespace vf {
 
@@ -237,12 +238,19 @@ inline void crash_handler(int sig) {
   }
   _exit(0);
 }
+// per-case CPU-time watchdog: a case that burns more than `seconds` of CPU time raises SIGVTALRM, which the crash handler
+// attributes to the running case (tag crash_signal_26 = hang). Re-arm before every case; arm_watchdog(0) disarms.
+inline void arm_watchdog(double seconds) {
+  struct itimerval it; memset(&it, 0, sizeof it);
+  it.it_value.tv_sec = (time_t)seconds; it.it_value.tv_usec = (suseconds_t)((seconds - (time_t)seconds) * 1e6);
+  setitimer(ITIMER_VIRTUAL, &it, nullptr);
+}
 inline void install_crash_handler(Reporter& r) {
   crash_reporter() = &r;
   static char altstack[1 << 16];
   stack_t ss; ss.ss_sp = altstack; ss.ss_size = sizeof altstack; ss.ss_flags = 0; sigaltstack(&ss, nullptr);
   struct sigaction sa; memset(&sa, 0, sizeof sa); sa.sa_handler = crash_handler; sa.sa_flags = SA_ONSTACK;
-  for (int s : {SIGSEGV, SIGBUS, SIGFPE, SIGILL, SIGABRT}) sigaction(s, &sa, nullptr);
+  for (int s : {SIGSEGV, SIGBUS, SIGFPE, SIGILL, SIGABRT, SIGVTALRM}) sigaction(s, &sa, nullptr);
 }
 
 // ---------------------------------------------------------------- canonical forms
